@@ -390,7 +390,7 @@ Theorem osinv_run ops : owf ops -> osinv (run ops).
 Proof. intros W. apply osinv_run_from; [apply osinv_empty|exact W]. Qed.
 
 (* ---- clock times stay small along these histories too ---- *)
-From IpfsLog Require Import Proofs.TimeProofs Proofs.PTime Proofs.TravProofs Proofs.ValuesProofs Proofs.PValues.
+From IpfsLog Require Import Proofs.TimeProofs Proofs.PTime Proofs.TravProofs Proofs.ValuesProofs Proofs.PValues Proofs.IterProofs.
 
 Lemma otime_of_append U B n l payload pc h e :
   pinv U (lift l) -> (forall x, In x U -> 0 < e_time x <= B + n) -> 0 <= l_time l <= B + n ->
@@ -722,4 +722,61 @@ Proof.
   destruct (join l o false size) as [l' out] eqn:J'.
   destruct (join_lift_fields l o false size l' out J') as [t' JT]. rewrite JT in JB. injection JB as <- ->.
   exists vu, l'. split; [exact V|]. split; [reflexivity|]. exact Rest.
+Qed.
+
+(* ---- no operation of such a history panics ---- *)
+Lemma iterator_no_panic_raw l : NoDup (okeys (l_entries l)) -> well_keyed (l_entries l) ->
+  forall o, iterator l o <> Panic.
+Proof.
+  intros EN WK o.
+  unfold iterator. destruct (it_amount o) as [[|p|p]|]; try discriminate;
+    (destruct (iter_start l o) as [st| |] eqn:S; [|discriminate|];
+     [unfold traverse;
+      match goal with |- context [trav ?f ?en ?s ?a ?e ?st0 [] [] 0] =>
+        pose proof (trav_fuel_ok en s EN WK a e f st0 [] [] 0) as F;
+        destruct (trav f en s a e st0 [] [] 0); [discriminate|exfalso; apply F; [unfold trav_fuel; rewrite unseen_nil; lia|reflexivity]] end
+     |exfalso; revert S; unfold iter_start;
+      destruct (it_lte o) as [hs|]; [destruct (get_all _ _); discriminate|];
+      destruct (it_lt o) as [hs|]; [|discriminate];
+      generalize (oslice (sorted_heads l)); induction hs as [|c hs IH]; intros st0; cbn [fold_left]; [discriminate|];
+      destruct (oget (l_entries l) c) as [e|]; [destruct (get_all (l_entries l) (e_next e))|];
+      try apply IH; clear; induction hs as [|c' hs IHh]; cbn [fold_left]; try discriminate; auto]).
+Qed.
+
+Lemma append_entry_total_raw l payload pc h : NoDup (okeys (l_entries l)) -> well_keyed (l_entries l) ->
+  append_entry l payload pc h <> None.
+Proof.
+  intros EN WK. unfold append_entry, traverse.
+  match goal with |- context [trav ?f ?en ?s ?a ?e ?st0 [] [] 0] =>
+    pose proof (trav_fuel_ok en s EN WK a e f st0 [] [] 0) as F;
+    destruct (trav f en s a e st0 [] [] 0); [discriminate|exfalso; apply F; [unfold trav_fuel; rewrite unseen_nil; lia|reflexivity]] end.
+Qed.
+
+Theorem ostep_never_panics ops o : owf ops ->
+  match snd (step (run ops) o) with ResNone RcPanic => False | _ => True end.
+Proof.
+  intros W. destruct (osinv_run ops W) as [UO IL].
+  assert (EN : forall r l, nth_error (s_logs (run ops)) r = Some l -> NoDup (okeys (l_entries l)) /\ well_keyed (l_entries l)).
+  { intros r l L. pose proof (IL r l L) as I. split; [exact (pi_nodup _ _ I)|exact (pinv_well_keyed _ _ I)]. }
+  destruct o as [id key sf deny t0|r payload pc h|r src size|r key|r mh|r io|r payload pc h|r|osrc okeep ohh oid okey osf odeny]; cbn [step].
+  - exact Logic.I.
+  - destruct (nth_error (s_logs (run ops)) r) as [l|] eqn:L; [|exact Logic.I].
+    destruct (EN r l L) as [A B]. pose proof (append_entry_total_raw l payload pc h A B) as T.
+    unfold append. destruct (append_entry l payload pc h) as [e|]; [|congruence].
+    destruct (allowed l e); cbn; [exact Logic.I|]. exact Logic.I.
+  - destruct (nth_error (s_logs (run ops)) r) as [l|] eqn:L; [|exact Logic.I].
+    destruct (nth_error (s_logs (run ops)) src) as [o|] eqn:O; [|exact Logic.I].
+    pose proof (ojoin_no_panic ops r l W L src o size O) as NP.
+    destruct (join l o (Nat.eqb r src) size) as [l' out]. cbn [snd] in *.
+    destruct out as [u|[]|]; cbn; try exact Logic.I. congruence.
+  - destruct (nth_error (s_logs (run ops)) r) as [l|]; exact Logic.I.
+  - destruct (nth_error (s_logs (run ops)) r) as [l|]; [|exact Logic.I]. destruct (olen (l_heads l) =? 0); exact Logic.I.
+  - destruct (nth_error (s_logs (run ops)) r) as [l|] eqn:L; [|exact Logic.I].
+    destruct (EN r l L) as [A B]. pose proof (iterator_no_panic_raw l A B io) as NP.
+    destruct (iterator l io) as [[es c]|[]|]; cbn; try exact Logic.I. congruence.
+  - destruct (nth_error (s_logs (run ops)) r) as [l|] eqn:L; [|exact Logic.I].
+    destruct (EN r l L) as [A B]. pose proof (append_entry_total_raw l payload pc h A B) as T.
+    destruct (append_entry l payload pc h) as [e|]; [exact Logic.I|congruence].
+  - exact Logic.I.
+  - destruct (nth_error (s_logs (run ops)) osrc) as [l|]; exact Logic.I.
 Qed.
